@@ -51,7 +51,7 @@ class Machine:
 
     pid = None                 # "C14"
     title = ""
-    per_run_timeout = 60       # seconds of wall clock before a run counts as hung
+    per_run_timeout = 60       # seconds of CPU time of the run (or ten times that in wall time) before it counts as hung
     quick_runs = 1000
     thorough_runs = 10000
     quick_deadline = 240       # soft wall deadline (s): stop scheduling new runs
